@@ -16,6 +16,10 @@ ASSUMPTIONS = ["the accepter honours its context (Accept fails with a closing er
 
 def run(ctx, res):
     looplib.run_family(ctx, res, "loop:c20")
+    if not ctx.get("replay"):
+        # NetAccepter (the accepter Loop is normally given) is outside the Loop model, whose accepter is scripted
+        from . import common as C
+        C.run_probes(res, "C20", ["netacc-ctx-before-loop", "netacc-ctx-between-accepts", "netacc-ctx-during-accept"])
     res.assumptions = ASSUMPTIONS
     res.rule = ("scenario = seeded history of 0-5 connections: accepter yields a connection / fails with a closing or another "
                 "error, context end, client close, transport failure, calls with gated handlers, gate releases, Assigner "
